@@ -25,9 +25,20 @@ PROGRAM = """(set 'counter 0)
 (defun op-read () (lit))
 (defun with-rest (&rest xs) (stable-sort < xs))
 (defun op-restargs () (with-rest 3 1 2))
+(defun with-req-rest (a &rest xs) (stable-sort < xs))
+(defun with-opt (&optional xs) (stable-sort < xs))
+(defun nested () '((3 1 2)))
+(defun op-applyrest () (apply with-rest (lit)))
+(defun op-applycdr () (apply with-rest (cdr (lit))))
+(defun op-applyreq () (apply with-req-rest (lit)))
+(defun op-funcallopt () (funcall with-opt (lit)))
+(defun op-mapsort () (car (map 'list (lambda (x) (stable-sort < x)) (nested))))
+(defun op-foldsort () (foldl (lambda (acc x) (stable-sort < x)) () (nested)))
 """
 FORM = {"sort": "(op-sort)", "cdrsort": "(op-cdrsort)", "slicepush": "(op-slicepush)", "append0": "(op-append0)", "restsort": "(op-restsort)",
-        "macroarg": "(op-macroarg)", "define": "(op-define)", "read": "(op-read)", "reload": "(reload)"}
+        "macroarg": "(op-macroarg)", "define": "(op-define)", "read": "(op-read)", "reload": "(reload)",
+        "applyrest": "(op-applyrest)", "applycdr": "(op-applycdr)", "applyreq": "(op-applyreq)", "funcallopt": "(op-funcallopt)",
+        "mapsort": "(op-mapsort)", "foldsort": "(op-foldsort)"}
 CFG = """SPECIFICATION Spec
 CONSTANTS R = %d
  LEN = %d
@@ -44,6 +55,8 @@ def show(model_result, op):
         return str(model_result[0])
     if op == "slicepush":
         return "(vector %s)" % " ".join(str(x) for x in model_result)
+    if op in ("mapsort", "foldsort"):      # the inner list of a nested literal is an unquoted node
+        return "(%s)" % " ".join(str(x) for x in model_result)
     if op == "append0":
         return "(vector %s)" % " ".join(str(x) for x in model_result)
     return "'(%s)" % " ".join(str(x) for x in model_result)
@@ -97,7 +110,7 @@ def _run(V, work, tier):
                 V.add(None, "runtime %d's results differ from the specification under schedule %s: real %s, specification %s" % (r + 1, b["sched"], o["results"][r], want), dict(case, real=o["results"]))
             if o["results"][r] != o["solo"][r]:
                 V.add(None, "runtime %d's results depend on the other runtimes (solo run against a fresh parse: %s, interleaved: %s)" % (r + 1, o["solo"][r], o["results"][r]), case)
-            if o["lit_after"][r] != "'(3 1 2)":
+            if o["lit_after"][r] != "'(3 1 2)" or o.get("nested_after", ["'('(3 1 2))"] * 9)[r] not in ("'('(3 1 2))", "'((3 1 2))"):
                 V.add(None, "the quoted literal evaluates to %s afterwards" % o["lit_after"][r], case)
         if i % 500 == 3:
             V.sample({"scripts": b["scripts"], "schedule": b["sched"], "results": o["results"]})
